@@ -221,7 +221,7 @@ async def start_proc(
     """
     channel_future: asyncio.Future[Channel] = asyncio.Future()
     async def on_connect(r: asyncio.StreamReader, w: asyncio.StreamWriter):
-        channel_future.set_result(Channel(r, w, name=sim_name))
+        channel_future.set_result(Channel(_ResetIsEOF(r), w, name=sim_name))
 
     server = await asyncio.start_server(on_connect, *mosaik_config["addr"])
     try:
@@ -319,7 +319,34 @@ async def start_connect(
             f'Simulator "{sim_name}" could not be started: Could not connect to '
             f'"{sim_config["connect"]}"'
         )
-    return RemoteProxy(Channel(reader, writer, name=sim_name), mosaik_remote)
+    return RemoteProxy(
+        Channel(_ResetIsEOF(reader), writer, name=sim_name), mosaik_remote
+    )
+
+
+class _ResetIsEOF:
+    """
+    Wrapper for the :class:`asyncio.StreamReader` of a simulator's
+    connection that reports a connection reset like the end of the
+    stream.
+
+    The channel only handles the latter (by failing the outstanding
+    requests and ending the stream of incoming requests). A connection
+    that is reset instead (e.g. because the simulator's process died
+    with unread data in its socket) would leave the outstanding
+    requests unanswered forever.
+    """
+    def __init__(self, reader: asyncio.StreamReader):
+        self._reader = reader
+
+    async def readexactly(self, n: int) -> bytes:
+        try:
+            return await self._reader.readexactly(n)
+        except ConnectionError as e:
+            raise asyncio.IncompleteReadError(b"", n) from e
+
+    def __getattr__(self, name: str) -> Any:
+        return getattr(self._reader, name)
 
 
 Port: TypeAlias = Tuple[EntityId, Attr]
